@@ -45,10 +45,16 @@ def close(a, b, rel, scale):
     return abs(a - b) <= rel * (scale + abs(a) + abs(b)) + 1e-300
 
 
-def compare(ref, got, P, split, clear):
-    """ref: data of the single rank of the reference run; got: list per rank. Returns None or description."""
+def compare(ref, got, P, split, clear, members=None):
+    """ref: data of the single rank of the reference run; got: list per rank. Returns None or description.
+    members: world ranks that form the communicator handed to the library (None = all); the others only have to finish."""
     r0 = ref[0]
+    first = min(members) if members else 0
     for k, d in enumerate(got):
+        if members is not None and k not in members:
+            if not d.get("finished"):
+                return "rank %d (outside the sub-communicator) did not finish" % k
+            continue
         if "failure" in d:
             return "rank %d: %s" % (k, d["failure"])
         if not d.get("finished"):
@@ -64,7 +70,7 @@ def compare(ref, got, P, split, clear):
                 if not close(cplx(x), cplx(y), 1e-11, 1.0):
                     return "rank %d: G_%d%d differs from the single-rank run: %s vs %s" % (k, a[0], a[1], x, y)
         # tables: split -> every rank; nosplit -> rank 0
-        if split or k == 0:
+        if split or k == first:
             tr = {json.dumps(t[0]): t[1] for t in r0["tables"]["tables"]}
             tg = {json.dumps(t[0]): t[1] for t in d["tables"]["tables"]}
             if set(tr) != set(tg):
@@ -138,8 +144,10 @@ def main():
                     c.violation("%s split=%s clear=%s: the single-rank run fails: rc=%s %s" % (name, split, clear, ref.rc, rd[0].get("failure")),
                                 {"P": 1, "threads": 1, "scenario": base}, cls="single-rank")
                     continue
-                confs = [(P, 1) for P in Pr] + [(1, 4), (2, 4)] + ([(3, 16), (1, 16), (4, 2)] if thorough else [])
-                for (P, thr) in confs:
+                confs = [(P, 1, None) for P in Pr] + [(1, 4, None), (2, 4, None)] + ([(3, 16, None), (1, 16, None), (4, 2, None)] if thorough else [])
+                # the library on a sub-communicator: ranks outside it never enter a collective, so anything addressed to the world hangs
+                confs += [(3, 1, [1, 2]), (4, 1, [0, 2, 3])] + ([(5, 1, [1, 3, 4]), (4, 1, [3])] if thorough else [])
+                for (P, thr, sub) in confs:
                     if len(c.violations) >= 6:
                         break       # the tree is broken: further runs would each cost their full time-out
                     for s in range(seeds):
@@ -147,25 +155,27 @@ def main():
                         sc = dict(base)
                         sc["seed"] = c.seed * 100 + n
                         sc["maxus"] = rng.choice([0, 300, 2000])
+                        if sub:
+                            sc["subcomm"] = sub
                         tag = "C06/run-%d" % n
                         run = mpi.run_mpi(exe, sc, P, tag, timeout=90, threads=thr)
                         c.evaluations += 1
                         rep = {"P": P, "threads": thr, "scenario": sc}
-                        label = "%s P=%d threads=%d split=%s clear=%s seed=%d" % (name, P, thr, split, clear, sc["seed"])
+                        label = "%s P=%d%s threads=%d split=%s clear=%s seed=%d" % (name, P, (" sub-communicator %s" % sub) if sub else "", thr, split, clear, sc["seed"])
                         if run.timed_out:
                             run2 = mpi.run_mpi(exe, sc, P, tag + "-again", timeout=90, threads=thr)
                             if run2.timed_out:
                                 c.violation("%s: did not terminate within 90 s (twice)" % label, rep, cls="termination")
                                 continue
                             run = run2
-                        why = compare(rd, data_of(run), P, split, clear)
+                        why = compare(rd, data_of(run), P, split, clear, sub)
                         if why:
                             c.violation("%s: %s" % (label, why), rep, cls="data")
                             continue
                         if run.rc != 0:
                             c.violation("%s: mpiexec exited with %s: %s" % (label, run.rc, run.stderr[-300:]), rep, cls="crash")
                             continue
-                        if P <= 8:
+                        if P <= 8 and not sub:
                             lines = mpi.program_trace(run)
                             ok, r = mpi.validate_program(lines, tag + "-trace", timeout=200)
                             if r.error and not ok and "timeout" in r.error:
